@@ -67,6 +67,9 @@ type PathQuery struct {
 	// or a phi / negation that evaluates to a known value under the assumptions, over the incoming edges that are
 	// feasible under them (`x := a && f(); if x`) - only the matching edge is taken.
 	Assume []Assumption
+	// CalleeExit selects, inside the callees counted by the deep weights, the returns that count (nil = all returns);
+	// e.g. "not the error returns" when the caller's Exit excludes its own error exits.
+	CalleeExit func(b *ssa.BasicBlock) bool
 
 	deep *deepState
 }
@@ -211,7 +214,9 @@ func (q PathQuery) calleeWeight(in ssa.Instruction) (int, int) {
 	}
 	iv, ok := ds.memo[callee]
 	if !ok {
-		sub := PathQuery{Fn: callee, Weight: q.Weight, Edge: q.Edge, Assume: q.Assume, Exit: func(b *ssa.BasicBlock) bool { return ExitOf(b) == ExitReturn },
+		sub := PathQuery{Fn: callee, Weight: q.Weight, Edge: q.Edge, Assume: q.Assume, CalleeExit: q.CalleeExit, Exit: func(b *ssa.BasicBlock) bool {
+			return ExitOf(b) == ExitReturn && (q.CalleeExit == nil || q.CalleeExit(b))
+		},
 			deep: &deepState{memo: ds.memo, stack: append(append([]*ssa.Function{}, ds.stack...), q.Fn)}}
 		iv = sub.Count()
 		ds.memo[callee] = iv
